@@ -319,6 +319,15 @@ pub enum Body {
     Y(CallCfg, CallCfg, Vec<(bool, CallEv)>),
     /// Two streams on one graph, each created at its first event; events are `(is_b, event)`.
     Z(StreamCfg, StreamCfg, Vec<(bool, SEv)>),
+    /// A stream (A) and a call (B, `mut=0`) on one graph, each created at its first event.
+    W(StreamCfg, CallCfg, Vec<MixEv>),
+}
+
+/// Event of a `W` case.
+#[derive(Clone, Debug)]
+pub enum MixEv {
+    A(SEv),
+    B(CallEv),
 }
 
 #[derive(Clone, Debug)]
@@ -337,6 +346,7 @@ impl RtCase {
             Body::H(..) => 'H',
             Body::Y(..) => 'Y',
             Body::Z(..) => 'Z',
+            Body::W(..) => 'W',
         }
     }
 }
@@ -375,6 +385,18 @@ pub fn fmt_rt_case(c: &RtCase) -> String {
                 format!("{}:{}", if *is_b { 'B' } else { 'A' }, fmt_call_ev(e))
             });
             format!("{head} | {} | {} | {}", fmt_call_cfg(a), fmt_call_cfg(b), evs)
+        }
+        Body::W(a, b, evs) => {
+            let evs = fmt_list(evs, |e| match e {
+                MixEv::A(e) => format!("A:{}", fmt_sev(e)),
+                MixEv::B(e) => format!("B:{}", fmt_call_ev(e)),
+            });
+            format!(
+                "{head} | {} | {} | {}",
+                fmt_stream_cfg(a),
+                fmt_call_cfg(b),
+                evs
+            )
         }
         Body::Z(a, b, evs) => {
             let evs = fmt_list(evs, |(is_b, e)| {
@@ -501,7 +523,7 @@ fn parse_ev_list<T>(s: &str, f: impl Fn(&str) -> Result<T, String>) -> Result<Ve
     s.split_whitespace().map(f).collect()
 }
 
-/// Parses a `CASE X|S|H|Y|Z` line; `Ok(None)` for every other line.
+/// Parses a `CASE X|S|H|Y|Z|W` line; `Ok(None)` for every other line.
 pub fn parse_rt_case_line(line: &str) -> Result<Option<RtCase>, String> {
     let line = line.trim_end();
     let kind = match line.strip_prefix("CASE ").and_then(|r| r.split(' ').next()) {
@@ -510,6 +532,7 @@ pub fn parse_rt_case_line(line: &str) -> Result<Option<RtCase>, String> {
         Some("H") => 'H',
         Some("Y") => 'Y',
         Some("Z") => 'Z',
+        Some("W") => 'W',
         _ => return Ok(None),
     };
     let parts: Vec<&str> = line.split('|').collect();
@@ -566,6 +589,26 @@ pub fn parse_rt_case_line(line: &str) -> Result<Option<RtCase>, String> {
                 }
             }
             Body::H(runs)
+        }
+        'W' => {
+            if parts.len() != 5 {
+                return Err(format!("CASE W needs 5 sections, got {}", parts.len()));
+            }
+            let a = parse_stream_cfg(parts[2])?;
+            let b = parse_call_cfg(parts[3])?;
+            if b.mutable {
+                return Err("CASE W requires mut=0 for the call".to_string());
+            }
+            let evs = parse_ev_list(parts[4], |t| {
+                if let Some(r) = t.strip_prefix("A:") {
+                    Ok(MixEv::A(parse_sev(r)?))
+                } else if let Some(r) = t.strip_prefix("B:") {
+                    Ok(MixEv::B(parse_call_ev(r)?))
+                } else {
+                    Err(format!("pair event without `A:`/`B:`: `{t}`"))
+                }
+            })?;
+            Body::W(a, b, evs)
         }
         'Z' => {
             if parts.len() != 5 {
